@@ -124,7 +124,7 @@ def one_side(impl, case, sc, pert):
                         plan.send_raw_status[pth] = struct.pack("<II", [wire.ID_DATA, wire.ID_DONE][which - 2], 0)
         if pert == "corrupt":
             target = sim.emitted + rng.randint(0, 20)
-            how = rng.choice(["payload", "sum", "word"])
+            how = rng.choice(["payload", "sum", "word", "sum-zero", "sum-zero", "sum-ff"])
 
             def before_emit(pkt, raw, target=target, how=how):
                 if pkt.index != target:
@@ -134,6 +134,9 @@ def one_side(impl, case, sc, pert):
                     b[24] ^= 0x55
                 elif how == "sum" and pkt.payload:
                     b[16 + (target % 4)] ^= 0x01 << (target % 8)
+                elif how in ("sum-zero", "sum-ff") and pkt.payload:
+                    # the checksum field takes a value that an implementation might treat as "no checksum"
+                    b[16:20] = b"\x00\x00\x00\x00" if how == "sum-zero" else b"\xff\xff\xff\xff"
                 elif how == "word":
                     b[0:4] = struct.pack("<I", 0x12345678)
                 return bytes(b)
